@@ -15,13 +15,14 @@ MANIFEST = dict(
          "conversion (numpy_array_to_live_points 2-d/1-d/empty, parameters_to_live_point, dict_to_live_points scalar and "
          "sequence branch, dataframe_to_live_points, empty_structured_array) returns the canonical array "
          "names ++ [logP, logL, it] ++ registered extras with the values in place and NaN/NaN/0/registered defaults "
-         "elsewhere; round trips array->livepoints->array, dict->livepoints->dict, livepoints->dict->livepoints (n != 1), "
-         "tuple->livepoint->fields; data frame = dict = array conversion; selection of any fields in any order; the registry "
+         "elsewhere; round trips array->livepoints->array, dict->livepoints->dict, livepoints->dict->livepoints, "
+         "tuple->livepoint->fields, all for every n incl. 0 and 1; data frame = dict = array conversion; a dictionary of "
+         "length-one sequences gives the same one-point array as the dictionary of scalars (regression guard for the defect "
+         "repaired in nessai 0091c80); selection of any fields in any order; the registry "
          "after any add/reset history holds the first registration of every name since the last reset (no duplicates) and "
          "new arrays follow it; the unstructured view on the leading fields is a lens (reads = field reads, writes = field "
          "writes, nothing else touched). Counter-example theorems: duplicated/reserved names are rejected (ValueError), "
-         "unstructured_view ignores the order of names, and dict_to_live_points fails on every dictionary whose first value "
-         "is a length-one sequence (a genuine defect, reproduced on the real code). Model tied to the code by a differential "
+         "unstructured_view ignores the order of names, a scalar first value followed by a sequence is rejected. Model tied to the code by a differential "
          "correspondence: the real functions and the real global registry (always reset in a finally) against the compiled "
          "Lean model on generated names (1-20 identifiers incl. non-ASCII), n in {0,1,2..12}, values as IEEE bit patterns "
          "(several NaN payloads incl. signalling, +-inf, +-0, subnormals, extremes, random), add/reset histories with "
@@ -453,7 +454,7 @@ def run_case(ctx, case):
                     rec.fail("dict_to_live_points", f"raised {err} on a dictionary of scalars")
                 else:
                     check_lp(rec, "dict_to_live_points", "dict_to_live_points[scalars]", x, names, nsp, B, n, extras, fdt)
-        for fn in (("ndarray", "list") if n != 1 else ("ndarray",)):
+        for fn in ("ndarray", "list"):
             d = {}
             for j, nm in enumerate(names):
                 col = np.array(cols[j], dtype="<u8").view("<f8") if n else np.zeros(0)
@@ -462,7 +463,7 @@ def run_case(ctx, case):
             items = ",".join(f"{nm}:a:[{','.join(str(b) for b in cols[j])}]" for j, nm in enumerate(names))
             rec.add(f"lp dict {c} {regt} {nspt} [{items}]", err or canon_lp(x, fdt), "dict_to_live_points.sequences." + fn,
                     f"dict.seq.{ncl}")
-            key = "dict_to_live_points:length-1-sequences" if n == 1 else "dict_to_live_points"
+            key = "dict_to_live_points"
             if err:
                 rec.fail(key, f"raised {err} on a dictionary of {n}-element sequences "
                               f"(e.g. dict_to_live_points({{'x': np.array([1.0])}}))")
@@ -532,7 +533,7 @@ def read_back(rec, lp, xs, case, rng, extras, fdt, c, ncl):
     d, err = call(lp.live_points_to_dict, xs, list(names))
     if d is not None:
         y, err = call(lp.dict_to_live_points, d, non_sampling_parameters=nsp)
-        key = "dict_to_live_points:length-1-sequences" if n == 1 else "dict_to_live_points:roundtrip"
+        key = "dict_to_live_points:roundtrip"
         if err:
             rec.fail(key, f"live_points_to_dict then dict_to_live_points raised {err} for {n} point(s)")
         elif y.dtype != xs.dtype or y.tobytes() != xs.tobytes():
